@@ -465,6 +465,9 @@ def decide_trees(ctx, meta, results, failed_rules, stream, hist_tags, hist_depth
     ctx.obligations(len(lemmas) + n_refuted, n_ok)
     attributed = 0
     fully = 0
+    reported = 0
+    suppressed = 0
+    REPORT_CAP = 8
     for jid, r in sorted(results.items()):
         job = meta[jid]
         rec = vtree.totuple(job["recipe"])
@@ -520,6 +523,10 @@ def decide_trees(ctx, meta, results, failed_rules, stream, hist_tags, hist_depth
                     ctx.violation(f"C14:rule:{blame[0]}", f"{vx.show_recipe(rec)} evaluates to {hit['observed']} instead of {hit['expected']} "
                         f"(through rule {blame[0]})", {**base, **hit, "rule": blame[0]}, True)
                 continue
+        if reported >= REPORT_CAP:
+            suppressed += 1
+            continue
+        reported += 1
         if hit:
             ctx.violation(tv_key(job["mode"], rec, job["rank"]), f"{vx.show_recipe(rec)} ({job['mode']}, identity order {job['rank']}) gives "
                 f"{r.get('out_str')}, which evaluates to {hit['observed']} instead of {hit['expected']}",
@@ -539,7 +546,8 @@ def decide_trees(ctx, meta, results, failed_rules, stream, hist_tags, hist_depth
     ctx.evaluated(len(results), ndistinct)
     cov = ctx.coverage.setdefault("streams", {})
     cov[stream] = {"builds": len(results), "distinct_recipes": ndistinct, "lemmas": len(lemmas) + n_refuted, "proved": n_ok, "refuted_numerically": n_refuted, "fully_validated": fully,
-        "explained_by_reported_rule": attributed, "status": status_hist, "node_histogram": hist_tags,
+        "explained_by_reported_rule": attributed, "failing_trees_reported": reported,
+        "failing_trees_not_reported_individually": suppressed, "status": status_hist, "node_histogram": hist_tags,
         "depth_histogram": {str(k): v for k, v in sorted(hist_depth.items())},
         "distinct_identity_orders": len(id_orders), "hash_seeds": sorted({r.get("hashseed", 0) for r in results.values()})}
     ctx.coverage["programs"] = ctx.coverage.get("programs", 0) + len(results)
